@@ -83,6 +83,7 @@ pub fn member_spec(aid: usize, version: u8, shift: u16, files: &[(u8, u8, u8)]) 
                 seed: 1000 + aid as u32 * 100 + n as u32,
                 method: [M_NONE, M_ZLIB, M_BZIP2][variety as usize % 3],
                 enc: Enc::None,
+                locale: 0,
             }
         })
         .collect();
